@@ -239,6 +239,12 @@ example : (sendItem cPinned 1 { id := 7, size := 40, serFail := some 40 } .none 
     outcome cPinned (sendItem cPinned 1 { id := 7, size := 40, serFail := some 40 } .none true 0).2.1 =
       [.value { id := 7, size := 40, serFail := some 40 }] := by decide
 
+/-- the same with a sender-side type that has a trailing field the receiver does not read (60 bytes, the
+receiver needs 20) whose serialization fails after 50 bytes: reported as failed, delivered -/
+example : (sendItem cPinned 1 { id := 7, size := 60, need := 20, serFail := some 50 } .none true 0).2.2 = .serErr ∧
+    outcome cPinned (sendItem cPinned 1 { id := 7, size := 60, need := 20, serFail := some 50 } .none true 0).2.1 =
+      [.value { id := 7, size := 60, need := 20, serFail := some 50 }] := by decide
+
 /-- a streamed send dropped by the caller while `finish` is pending: cancelled, yet delivered -/
 example : (sendItem cPinned 1 { id := 7, size := 40 } (.inData 40) true 0).2.2 = .cancelled ∧
     outcome cPinned (sendItem cPinned 1 { id := 7, size := 40 } (.inData 40) true 0).2.1 = [.value { id := 7, size := 40 }] := by
